@@ -1,11 +1,13 @@
 /-
 C20  Sectioning partitions each network into contiguous switch-bounded sections.
-(The part of C20 about taking a section out of service and putting it back is decided on the
-real objects by the check and proved on the switching model with the C05 theorems.)
+The part of C20 about taking a section out of service and putting it back is proved on the switching
+model (`section_out_takes_lines_out`, `disconnect_reconnect_restores`, using the invariant `G` of
+`Lemmas/ControlGL.lean`) and decided on the real objects by the check.
 -/
 import Relsad.Model.Sections
 import Relsad.Lemmas.SectionsL
 import Mathlib.Tactic.Linarith
+import Relsad.Lemmas.ControlGL
 
 namespace Relsad.C20
 open Relsad.Sections
@@ -134,5 +136,153 @@ theorem head_iff_switch (ls : List LineSpec) (i p : Nat) (l : LineSpec) (hl : ls
 /-- Non-vacuity: feeder L0(CB) - L1 - L2(two disconnectors) - L3 with a lateral L4 (one disconnector) at L1. -/
 example : secIds [⟨none, 1⟩, ⟨some 0, 0⟩, ⟨some 1, 2⟩, ⟨some 2, 0⟩, ⟨some 1, 1⟩] =
     [(0, false), (0, false), (2, true), (2, false), (4, false)] := by decide
+
+/-! ### taking a section out of service and putting it back (switching model, `Model/Control.lean`) -/
+
+open Relsad.Control in
+/-- **Taking a section out of service takes all of its own lines out of service** (any state, any configuration). -/
+theorem section_out_takes_lines_out (C : Cfg) (s : St) (k l : Nat) (hl : l ∈ (secOf C k).lines) (hlen : l < s.conn.length) :
+    gb (secDisconnect C s k).conn l = false := secDisconnect_lines_out C s k l hl hlen
+
+open Relsad.Control in
+theorem cbOpenOp_cbOpen (C : Cfg) (s : St) (c : Nat) : (cbOpenOp C s c).cbOpen = s.cbOpen.set c true := by
+  unfold cbOpenOp
+  simp only [lineDisconnect]
+  have key : ∀ (ds : List Nat) (x : St), (ds.foldl (fun s d => if gb s.dOpen d then s else disconOpen C s d) x).cbOpen = x.cbOpen := by
+    intro ds
+    induction ds with
+    | nil => intro x; rfl
+    | cons a as ih =>
+      intro x
+      simp only [List.foldl_cons]
+      rw [ih]
+      split_ifs <;> rfl
+  rw [key]
+
+open Relsad.Control in
+/-- `Section.disconnect` opens no breaker that the section does not list -/
+theorem secDisconnect_opens_listed (C : Cfg) (s : St) (k c : Nat) (h : gb (secDisconnect C s k).cbOpen c = true) :
+    gb s.cbOpen c = true ∨ Sw.breaker c ∈ (secOf C k).switches := by
+  unfold secDisconnect at h
+  simp only at h
+  have h1 : ((C.secs.getD k default).lines.foldl lineDisconnect { s with secConn := s.secConn.set k false }).cbOpen = s.cbOpen := by
+    have : ∀ (ls : List Nat) (x : St), (ls.foldl lineDisconnect x).cbOpen = x.cbOpen := by
+      intro ls
+      induction ls with
+      | nil => intro x; rfl
+      | cons a as ih => intro x; simp only [List.foldl_cons]; rw [ih]; rfl
+    rw [this]
+  have key : ∀ (sws : List Sw) (x : St), gb (sws.foldl (swOpen C) x).cbOpen c = true → gb x.cbOpen c = true ∨ Sw.breaker c ∈ sws := by
+    intro sws
+    induction sws with
+    | nil => intro x hx; exact Or.inl hx
+    | cons a as ih =>
+      intro x hx
+      simp only [List.foldl_cons] at hx
+      rcases ih _ hx with h' | h'
+      · cases a with
+        | discon d => exact Or.inl h'
+        | breaker c' =>
+          change gb (cbOpenOp C x c').cbOpen c = true at h'
+          rw [cbOpenOp_cbOpen, gb_set] at h'
+          split_ifs at h' with hc
+          · exact Or.inr (hc.1 ▸ List.mem_cons_self)
+          · exact Or.inl h'
+      · exact Or.inr (List.mem_cons_of_mem _ h')
+  rcases key _ _ h with h' | h'
+  · rw [h1] at h'; exact Or.inl h'
+  · exact Or.inr h'
+
+theorem list_eq_of_gb (a b : List Bool) (hlen : a.length = b.length) (h : ∀ i, i < a.length → Relsad.Control.gb a i = Relsad.Control.gb b i) : a = b := by
+  apply List.ext_getElem hlen
+  intro i h1 h2
+  have := h i h1
+  unfold Relsad.Control.gb at this
+  rw [List.getD_eq_getElem?_getD, List.getD_eq_getElem?_getD, List.getElem?_eq_getElem h1, List.getElem?_eq_getElem h2] at this
+  simpa using this
+
+open Relsad.Control in
+/-- **On an otherwise intact network, taking a section out of service and putting it back restores the original
+line, switch and section states** — every well-formed configuration, every section of every network. -/
+theorem disconnect_reconnect_restores (C : Cfg) (hC : wfB C = true) (hC2 : wfB2 C = true) (n : Nat) (hn : n < C.nets.length)
+    (k : Nat) (hk : k ∈ (netOf C n).secs) :
+    let r := putBack C n k (secDisconnect C (St.init C) k)
+    r.conn = (St.init C).conn ∧ r.dOpen = (St.init C).dOpen ∧ r.cbOpen = (St.init C).cbOpen ∧ r.secConn = (St.init C).secConn := by
+  intro r
+  have w := WF.of_wfB C hC
+  have w2 := WF2.of_wfB2 C hC2
+  have q0 := Quad.init (C := C) w
+  have z0 : Sz C (St.init C) := q0.triple.both.inv.sz
+  set s1 := secDisconnect C (St.init C) k with hs1
+  obtain ⟨o1, _⟩ := opensG_secDisconnect w w2 n hn k hk (St.init C) (q0.g.gsz z0)
+  have g1 : G C s1 := q0.g.of_opensG o1
+  have z1 : Sz C s1 := (sameLen_secDisconnect C (St.init C) k).sz z0
+  have hsec1 : s1.secConn = (St.init C).secConn.set k false := secDisconnect_secConn C (St.init C) k
+  have hklt : k < C.secs.length := w.sec_lt n hn k hk
+  -- the breaker step
+  set s2 := (if (secOf C k).switches.contains (.breaker (netOf C n).cb) then cbCloseOp C s1 (netOf C n).cb else s1) with hs2
+  have g2 : G C s2 := by rw [hs2]; split_ifs; exact g1.closeBreaker w w2 z1 n hn; exact g1
+  have z2 : Sz C s2 := by rw [hs2]; split_ifs; exact (sameLen_cbCloseOp C s1 _).sz z1; exact z1
+  have hsec2 : s2.secConn = s1.secConn := by rw [hs2]; split_ifs; exact (cbCloseOp_conn w s1 n hn).secConn; rfl
+  have hcb2 : ∀ c, c < C.cbLine.length → gb s2.cbOpen c = false := by
+    intro c hc
+    cases hx : gb s2.cbOpen c
+    · rfl
+    · exfalso
+      rw [hs2] at hx
+      split_ifs at hx with hb
+      · rw [(cbCloseOp_sw C s1 (netOf C n).cb).1, gb_set] at hx
+        split_ifs at hx with hcc
+        rcases secDisconnect_opens_listed C (St.init C) k c hx with h0 | h0
+        · rw [show gb (St.init C).cbOpen c = false from gb_map_const _ _] at h0; exact absurd h0 (by simp)
+        · have := (w.sec_breaker n hn k hk c h0).1
+          exact hcc ⟨this.symm, by rw [z1.cbOpen]; exact w.cb_lt n hn⟩
+      · rcases secDisconnect_opens_listed C (St.init C) k c hx with h0 | h0
+        · rw [show gb (St.init C).cbOpen c = false from gb_map_const _ _] at h0; exact absurd h0 (by simp)
+        · have := (w.sec_breaker n hn k hk c h0).1
+          rw [this] at h0
+          exact hb (by simpa using h0)
+  -- reconnecting
+  have hr : r = secConnectManually C s2 k := rfl
+  have g3 : G C r := by rw [hr]; exact g2.reconnect w w2 z2 n hn k hk
+  have z3 : Sz C r := by rw [hr]; exact (sameLen_secConnectManually C s2 k).sz z2
+  have hsec3 : r.secConn = ((St.init C).secConn.set k false).set k true := by
+    rw [hr, (secConnectManually_conn C s2 k).secConn]
+    show s2.secConn.set k true = _
+    rw [hsec2, hsec1]
+  have hcb3 : ∀ c, c < C.cbLine.length → gb r.cbOpen c = false := by
+    intro c hc; rw [hr, (secConnectManually_sw C s2 k).1]; exact hcb2 c hc
+  have hall : ∀ j, j < C.secs.length → gb r.secConn j = true := by
+    intro j hj
+    rw [hsec3, gb_set]; split_ifs
+    · rfl
+    · rw [gb_set]; split_ifs
+      · rename_i h1 h2; exfalso; exact h1 ⟨h2.1, by simp [h2.2]⟩
+      · exact gb_map_true _ _ hj
+  obtain ⟨dcl, lin⟩ := g3.all_back hall w hcb3 w2
+  refine ⟨?_, ?_, ?_, ?_⟩
+  · apply list_eq_of_gb _ _ (by rw [z3.conn, z0.conn])
+    intro i hi
+    rw [lin i (by rw [← z3.conn]; exact hi), show gb (St.init C).conn i = true from gb_map_true _ _ (by rw [← z3.conn]; exact hi)]
+  · apply list_eq_of_gb _ _ (by rw [g3.dlen, q0.g.dlen])
+    intro i hi
+    rw [dcl i (by rw [← g3.dlen]; exact hi), show gb (St.init C).dOpen i = false from gb_map_const _ _]
+  · apply list_eq_of_gb _ _ (by rw [z3.cbOpen, z0.cbOpen])
+    intro i hi
+    rw [hcb3 i (by rw [← z3.cbOpen]; exact hi), show gb (St.init C).cbOpen i = false from gb_map_const _ _]
+  · apply list_eq_of_gb _ _ (by rw [z3.secConn, z0.secConn])
+    intro i hi
+    rw [hall i (by rw [← z3.secConn]; exact hi), show gb (St.init C).secConn i = true from gb_map_true _ _ (by rw [← z3.secConn]; exact hi)]
+
+open Relsad.Control in
+/-- Non-vacuity on a feeder with the breaker line in the first section and a line behind a disconnector in the second:
+both sections are taken out (their lines go out of service) and put back. -/
+example :
+    let C : Cfg := { lines := [⟨0, some 0, [], 0⟩, ⟨0, none, [0], 1⟩], disconLine := [1], cbLine := [0],
+                     secs := [⟨[0], [.breaker 0, .discon 0]⟩, ⟨[1], [.discon 0]⟩], nets := [⟨0, 0, [0, 1], [0, 1], [], none, none⟩], T := 1 }
+    wfB C = true ∧ wfB2 C = true ∧ (secDisconnect C (St.init C) 0).conn = [false, false] ∧ (secDisconnect C (St.init C) 1).conn = [true, false] ∧
+    (putBack C 0 0 (secDisconnect C (St.init C) 0)).conn = [true, true] := by
+  intro C
+  exact ⟨by decide +kernel, by decide +kernel, by decide +kernel, by decide +kernel, by decide +kernel⟩
 
 end Relsad.C20
